@@ -1130,12 +1130,20 @@ def run(ctx: Any) -> None:
         "generated_patterns": len(pats), "corpus_patterns": len(cps), "payloads": len(_PAYLOAD_FUNCS),
         "pattern_tree": "root in {addi,muli,subi,test.op}; operands any/same/nested (depth<=2, arith.constant value=0/1/2); "
                         "types any/i32/shared; rewrites operand/nested-operand/new-op/new-constant/erase",
-        "payload_ops": ("<=2 ops rich alphabet + <=3 ops {c0,addi,muli,test.op/1}" if quick else
-                        "<=2 ops rich alphabet + <=3 ops {c0,c1,addi,muli,subi,test.op/1,test.op/1->()} + <=4 ops {c0,addi,test.op/1}"),
+        "payloads_run_against_every_pattern": _N_ALWAYS,
+        "payload_families": (["<=2 ops over {c0,c1,addi,muli,test.op with 0-2 operands and 0/1 result}",
+                              "<=3 ops over {c0,c1,addi,test.op(x)->i32}"] if quick else
+                             ["<=2 ops over {c0,c1,c2,addi,muli,subi,test.op with 0-2 operands and 0/1 result}",
+                              "<=3 ops over {c0,c1,addi,muli,test.op(x)->i32,test.op(x)->()}",
+                              "<=4 ops over {c0,addi}"]),
+        "corpus_layouts": ["embedded"] if quick else ["embedded", "file"],
+        "timeout_s_per_apply": TIMEOUT_S,
     }
-    ctx.rule = ("states = (pattern, payload function) pairs, every generated/corpus pattern x every payload of the tier "
+    ctx.rule = ("states = (pattern, payload function) pairs: every generated / corpus pattern x every payload of the first family "
+                "and x every payload of the other families that contains an op with the pattern's root name "
                 "(payloads: all operand wirings, every value used, modulo swapping the two block arguments); "
-                "non-trivial = at least one path rewrote the payload or raised")
+                "transitions = patterns converted + apply() calls; non-trivial = at least one path rewrote the payload, raised "
+                "or did not terminate")
     ctx.assumptions = [
         "patterns cannot match across functions, so several payload functions share one module per apply() call",
         "differences that vanish after erasing trivially dead arith ops, or when PDLRewritePattern is driven with the "
